@@ -1,0 +1,33 @@
+//go:build verif
+
+// Contracts for govc (see /verif/DESIGN.md). This file contains only
+// comments; it is compiled only under the `verif` build tag.
+
+package core
+
+// Configuration variables: assumed never to be set negative by a host.
+//@ globalinv TracesInitialCap: TracesInitialCap >= 0
+//@ globalinv EmittedMessagesInitialCap: EmittedMessagesInitialCap >= 0
+
+// Feature flags: assumed to keep their default values.
+//@ globalinv Exp_PermanentBindings: Exp_PermanentBindings
+
+// wfExe: the representation invariant of an Execution (what NewExecution establishes).
+//@ spec wfExe(x) = x != nil ==> x.Events != nil && x.Events.Traces != nil
+
+// The function wrapped by a FuncAction. Profile `any`: no frame, may return
+// anything well-formed. Profile `pure`: does not modify what it is given.
+//@ sig core.ActionFunc(ctx, bs, props) returns (exe, err)
+//@   ensures wfExe(exe)
+//@   modifies[;profile=pure] nothing
+
+//@ func (*FuncAction).Exec returns exe, err
+//@   safety C07, C18
+//@   calls a.F as sig:core.ActionFunc
+//@   requires a != nil ==> a.F != nil
+//@   ensures[C07] nonnil: exe != nil && wfExe(exe)
+//@   ensures[C18] perm: a != nil && exe.Bs != nil ==> forall p string :: hasSuffix(p, "!") && old(p in bs) ==> (p in exe.Bs) && exe.Bs[p] == old(bs[p])
+//@   loop 0 modifies permanent
+//@   loop 0 invariant[C18] collected: forall k string :: seen(0)[k] && hasSuffix(k, "!") ==> (k in permanent) && permanent[k] == bs[k]
+//@   loop 1 modifies exe.Bs
+//@   loop 1 invariant[C18] restored: forall k string :: seen(1)[k] ==> (k in exe.Bs) && exe.Bs[k] == permanent[k]
